@@ -6,18 +6,19 @@ set -u
 ID="$1"; shift
 EXTRA="$*"
 WT=${MUTROOT:-/tmp/mut}/$ID
-V=${VERIF_SNAPSHOT:-/verif}   # a frozen copy of /verif lets the checks run while /verif is being edited
+VS=${VERIF_SNAPSHOT:-/verif}   # a frozen copy of /verif lets the checks run while /verif is being edited
 export GOFLAGS=-mod=mod GOPROXY=off GOSUMDB=off GOTOOLCHAIN=local
 git -C $WT checkout -q -- . 2>/dev/null
 git -C $WT checkout -q --detach "$(git -C /repo rev-parse HEAD)" || { echo "cannot move $WT to HEAD"; exit 2; }
 for m in $(ls -d $WT/MUTANT_* | sort); do
   k=$(basename $m)
+  case "${ONLY:-}" in "") ;; *) [ "$k" = "$ONLY" ] || continue ;; esac
   echo "######## $ID $k"
-  $V/tools/vetmutant.sh $WT $m 2>&1 | cut -c1-300
+  $VS/tools/vetmutant.sh $WT $m 2>&1 | cut -c1-300
   git -C $WT apply $m/patch.diff 2>/dev/null || git -C $WT apply -3 $m/patch.diff || { echo "PATCH DOES NOT APPLY to HEAD"; git -C $WT reset -q --hard; continue; }
   for c in $ID $EXTRA; do
     EV=/var/tmp/ev_r2/$ID-$k-$c; mkdir -p $EV
-    OUT=$(VERIF_REPO=$WT VERIF_EVIDENCE_ROOT=$EV TIER=${TIER:-quick} $V/check $c ${TIER:-quick} 2>&1)
+    OUT=$(VERIF_REPO=$WT VERIF_EVIDENCE_ROOT=$EV TIER=${TIER:-quick} $VS/check $c ${TIER:-quick} 2>&1)
     RC=$?
     V=$(echo "$OUT" | grep -c '^VIOLATION')
     FIRST=$(echo "$OUT" | grep -m1 -E 'violation|ERROR' | cut -c1-200)
